@@ -9,6 +9,7 @@ import QM.Lookup
 import QM.Proc
 import QM.InstallModel
 import QM.Fs
+import QM.Search
 
 /-! Line protocol of the model driver: the same operations as `src/verif_driver.rs` (answered by the
     model of the implementation) plus `spec_*` operations (answered by the specifications, used as
@@ -166,6 +167,12 @@ def step (line : String) : String :=
         | _ => none
       if r.services.any (fun (_, o) => match o with | .outOfModel => true | _ => false) then "out-of-model"
       else s!"ok {r.loadErrors} {r.dropinErrors} [" ++ " ".intercalate svcs ++ "] [" ++ " ".intercalate errs ++ "]"
+  | "search" :: mode :: uid :: dirs =>
+      -- directories as '/'-separated absolute paths below "/"; answer: the directories read below the admin tree
+      let toDir (p : Str) : Srch.Dir := (Pth.splitSlash p).filter (fun x => !x.isEmpty)
+      let tree := dirs.map (fun x => toDir (hexd x))
+      let r := if mode == "root" then Srch.rootAdminDirs tree else Srch.rootlessAdminDirs true tree (hexd uid)
+      "ok " ++ list (r.map fun d => d.flatMap ('/' :: ·))
   | ["plan_links", f, t] => match Parse.parse parseEnv (hexd t) with
       | .ok u => "ok " ++ list ((Inst.planLinks (hexd f) u).flatMap fun (l, t) => [l, t])
       | .error _ => "err Unit"
